@@ -13,6 +13,9 @@ Proved for all grids, samplings, frequencies, stencil half-widths and coefficien
   linearly (`polynomial_exactness`, `polynomial_exactness_with_defect`);
 * the x and y second differences are scaled by `1/dx²` and `1/dy²` (`axis_prefactor`; the pinned tree used `1/(dx·dy)`
   for both, repaired by /repo 705a09f6); the accuracy-2 symbol is `−(2 sin(θ/2)/d)²` (`second_order_symbol`);
+* Taylor-remainder step for accuracies 2 and 4: `|symbol/d² + q²| ≤ q⁴d²/12` (all θ) and `≤ (3/128) q⁶d⁴` (`|θ| ≤ 2`), `q = θ/d`
+  (`second_order_symbol_error`, `fourth_order_symbol_error`; row 4 of the table is the exact stencil to `10⁻¹⁶`:
+  `fd_fourth_order_row_close`); Parseval step `vacuum_intensity_bounds` (per-mode gains in `[lo, hi]` ⇒ total intensity factor in `[lo, hi]`);
 * the loop of `_multislice_exponential_series` computes the truncated exponential series (`exp_series_partial_sum`), the
   vacuum step acts on a plane wave as multiplication by a purely imaginary number `μ` (`vacuum_step_symbol`), and the
   truncated series of a purely imaginary `μ`, `|μ| ≤ 1`, has modulus within an explicit remainder of one
@@ -21,6 +24,8 @@ Proved for all grids, samplings, frequencies, stencil half-widths and coefficien
 import AbtemVerif.Model.FiniteDiff
 import AbtemVerif.Gen.FiniteDiffC
 import AbtemVerif.Gen.FiniteDiffR
+import AbtemVerif.Lib.DFT
+import Mathlib.Analysis.SpecialFunctions.Trigonometric.Bounds
 import Mathlib.Analysis.SpecialFunctions.Complex.Circle
 import Mathlib.Analysis.SpecialFunctions.Exponential
 import Mathlib.Analysis.SpecialFunctions.Trigonometric.Basic
@@ -189,6 +194,151 @@ theorem second_order_symbol (θ d : ℝ) (hd : d ≠ 0) :
     rw [show 2 * (θ / 2) = θ by ring] at this
     rw [this, Real.cos_sq']; ring
   rw [h]; field_simp; ring
+
+/-! ### Taylor-remainder step: symbol versus the continuum Laplacian (accuracies 2 and 4), Parseval step -/
+
+lemma abs_sin_le_abs' (u : ℝ) : |Real.sin u| ≤ |u| := Real.abs_sin_le_abs
+
+/-- accuracy 2, Taylor-remainder step: the scaled stencil symbol differs from the continuum `−q²`, `q = θ/d`, by at most
+`θ⁴/(12 d²) = q⁴ d²/12` — second order in the pixel size, for every frequency and pixel size. -/
+theorem second_order_symbol_error (θ d : ℝ) (hd : d ≠ 0) :
+    |AbtemVerif.Gen.FiniteDiffR.axisPrefactor d * ((-2 : ℝ) + 2 * Real.cos θ) + (θ / d) ^ 2| ≤ θ ^ 4 / (12 * d ^ 2) := by
+  rw [second_order_symbol θ d hd]
+  set u := θ / 2 with hu
+  have hθ : θ = 2 * u := by rw [hu]; ring
+  have h1 : |u - Real.sin u| ≤ |u| ^ 3 / 6 := Real.abs_sub_sin_le u
+  have h2 : |u + Real.sin u| ≤ 2 * |u| := by
+    calc |u + Real.sin u| ≤ |u| + |Real.sin u| := abs_add_le _ _
+      _ ≤ |u| + |u| := by linarith [abs_sin_le_abs' u]
+      _ = 2 * |u| := by ring
+  have e : -(2 * Real.sin u / d) ^ 2 + (θ / d) ^ 2 = 4 * ((u - Real.sin u) * (u + Real.sin u)) / d ^ 2 := by
+    rw [hθ]; field_simp; ring
+  rw [e, abs_div, abs_mul, abs_mul, abs_of_pos (by positivity : (0 : ℝ) < d ^ 2)]
+  have h3 : |u - Real.sin u| * |u + Real.sin u| ≤ |u| ^ 3 / 6 * (2 * |u|) :=
+    mul_le_mul h1 h2 (abs_nonneg _) (by positivity)
+  have h4 : θ ^ 4 = 16 * |u| ^ 4 := by
+    rw [hθ]; rw [show (2 * u) ^ 4 = 16 * u ^ 4 by ring, ← abs_pow, abs_of_nonneg (by positivity : (0 : ℝ) ≤ u ^ 4)]
+  rw [h4, abs_of_pos (by norm_num : (0 : ℝ) < 4), div_le_div_iff₀ (by positivity) (by positivity)]
+  nlinarith [h3, abs_nonneg u, sq_nonneg d, mul_nonneg (abs_nonneg (u - Real.sin u)) (abs_nonneg (u + Real.sin u)), sq_pos_of_ne_zero hd]
+
+/-- the accuracy-4 symbol with the exact rational coefficients `(−1/12, 4/3, −5/2, 4/3, −1/12)` in terms of `s = sin²(θ/2)` -/
+lemma fourth_order_symbol_eq (θ : ℝ) :
+    (-5 / 2 : ℝ) + 2 * (4 / 3 * Real.cos θ + (-1 / 12) * Real.cos (2 * θ))
+      = -4 * Real.sin (θ / 2) ^ 2 - 4 / 3 * (Real.sin (θ / 2) ^ 2) ^ 2 := by
+  have h1 : Real.cos θ = 1 - 2 * Real.sin (θ / 2) ^ 2 := by
+    have := Real.cos_two_mul (θ / 2)
+    rw [show 2 * (θ / 2) = θ by ring] at this
+    rw [this, Real.cos_sq']; ring
+  have h2 : Real.cos (2 * θ) = 2 * Real.cos θ ^ 2 - 1 := Real.cos_two_mul θ
+  rw [h2, h1]; ring
+
+/-- `sin² u` is `u² − u⁴/3` up to `u⁶/20`, for `|u| ≤ 1` -/
+lemma sin_sq_bound (u : ℝ) (hu : |u| ≤ 1) :
+    |Real.sin u ^ 2 - (u ^ 2 - (u ^ 2) ^ 2 / 3)| ≤ (u ^ 2) ^ 3 / 20 := by
+  have hb := Real.sin_bound hu
+  set e := Real.sin u - (u - u ^ 3 / 6) with he
+  have hs : Real.sin u = (u - u ^ 3 / 6) + e := by rw [he]; ring
+  set a := |u| with ha
+  have ha0 : 0 ≤ a := abs_nonneg u
+  have hu2 : u ^ 2 = a ^ 2 := by rw [ha, sq_abs]
+  have he' : |e| ≤ a ^ 5 / 100 := hb
+  have hp : |u - u ^ 3 / 6| ≤ a := by
+    have : u - u ^ 3 / 6 = u * (1 - u ^ 2 / 6) := by ring
+    rw [this, abs_mul, hu2]
+    have h01 : |1 - a ^ 2 / 6| ≤ 1 := by
+      rw [abs_le]; constructor <;> nlinarith [sq_nonneg a, mul_le_one₀ hu ha0 hu]
+    calc |u| * |1 - a ^ 2 / 6| ≤ |u| * 1 := mul_le_mul_of_nonneg_left h01 (abs_nonneg u)
+      _ = a := by rw [mul_one]
+  have key : Real.sin u ^ 2 - (u ^ 2 - (u ^ 2) ^ 2 / 3) = (u ^ 2) ^ 3 / 36 + 2 * (u - u ^ 3 / 6) * e + e ^ 2 := by
+    rw [hs]; ring
+  rw [key]
+  have h1 : |2 * (u - u ^ 3 / 6) * e| ≤ 2 * a * (a ^ 5 / 100) := by
+    rw [abs_mul, abs_mul, abs_of_pos (by norm_num : (0 : ℝ) < 2)]
+    have := mul_le_mul hp he' (abs_nonneg e) ha0
+    nlinarith
+  have h2 : e ^ 2 ≤ (a ^ 5 / 100) ^ 2 := by
+    rw [← sq_abs e]; exact pow_le_pow_left₀ (abs_nonneg e) he' 2
+  have ha1 : a ≤ 1 := hu
+  have h3 : a ^ 10 ≤ a ^ 6 := by
+    have : a ^ 4 ≤ 1 := pow_le_one₀ ha0 ha1
+    nlinarith [pow_nonneg ha0 6]
+  have hpos : 0 ≤ (u ^ 2) ^ 3 / 36 := by positivity
+  have he2 : 0 ≤ e ^ 2 := sq_nonneg e
+  have hu6 : (u ^ 2) ^ 3 = a ^ 6 := by rw [hu2]; ring
+  rw [abs_le]
+  have := abs_le.mp h1
+  constructor <;> nlinarith [pow_nonneg ha0 6, pow_nonneg ha0 10]
+
+/-- accuracy 4, Taylor-remainder step: for `|θ| ≤ 2` the scaled symbol of the exact fourth-order stencil differs from the
+continuum `−q²`, `q = θ/d`, by at most `3 θ⁶/(128 d²) = (3/128) q⁶ d⁴` — fourth order in the pixel size. -/
+theorem fourth_order_symbol_error (θ d : ℝ) (hd : d ≠ 0) (hθ : |θ| ≤ 2) :
+    |AbtemVerif.Gen.FiniteDiffR.axisPrefactor d * ((-5 / 2 : ℝ) + 2 * (4 / 3 * Real.cos θ + (-1 / 12) * Real.cos (2 * θ)))
+        + (θ / d) ^ 2| ≤ 3 * θ ^ 6 / (128 * d ^ 2) := by
+  rw [fourth_order_symbol_eq]
+  unfold AbtemVerif.Gen.FiniteDiffR.axisPrefactor
+  set u := θ / 2 with hu
+  have hθ' : θ = 2 * u := by rw [hu]; ring
+  have hu1 : |u| ≤ 1 := by rw [hu, abs_div]; norm_num; linarith
+  set t := u ^ 2 with ht
+  have ht0 : 0 ≤ t := sq_nonneg u
+  have ht1 : t ≤ 1 := by rw [ht, ← sq_abs]; nlinarith [abs_nonneg u]
+  set r := Real.sin u ^ 2 - (t - t ^ 2 / 3) with hr
+  have hrb : |r| ≤ t ^ 3 / 20 := sin_sq_bound u hu1
+  have hs : Real.sin u ^ 2 = t - t ^ 2 / 3 + r := by rw [hr]; ring
+  have e : 1 / d ^ 2 * (-4 * Real.sin u ^ 2 - 4 / 3 * (Real.sin u ^ 2) ^ 2) + (θ / d) ^ 2
+      = (4 * t - 4 * (t - t ^ 2 / 3 + r) - 4 / 3 * (t - t ^ 2 / 3 + r) ^ 2) / d ^ 2 := by
+    rw [hs, hθ', ht]; field_simp; ring
+  rw [e, abs_div, abs_of_pos (by positivity : (0 : ℝ) < d ^ 2)]
+  have h6 : θ ^ 6 = 64 * t ^ 3 := by rw [hθ', ht]; ring
+  rw [h6, div_le_div_iff₀ (by positivity) (by positivity)]
+  obtain ⟨r1, r2⟩ := abs_le.mp hrb
+  have hE : |4 * t - 4 * (t - t ^ 2 / 3 + r) - 4 / 3 * (t - t ^ 2 / 3 + r) ^ 2| ≤ 3 / 2 * t ^ 3 := by
+    have ht3 : 0 ≤ t ^ 3 := pow_nonneg ht0 3
+    have ht2 : 0 ≤ t ^ 2 := pow_nonneg ht0 2
+    have ht32 : t ^ 3 ≤ t ^ 2 := by nlinarith
+    rw [abs_le]; constructor
+    · nlinarith [mul_nonneg ht0 ht3, sq_nonneg (r - t ^ 2 / 3), mul_nonneg ht0 (sub_nonneg.mpr r2), mul_nonneg ht0 (sub_nonneg.mpr r1),
+        mul_nonneg ht2 ht2, mul_nonneg ht2 ht3, mul_nonneg ht3 ht3, mul_self_nonneg (t ^ 3 / 20 + t ^ 2 / 3 - (r - t ^ 2 / 3)),
+        mul_nonneg (sub_nonneg.mpr r2) (sub_nonneg.mpr r1)]
+    · nlinarith [mul_nonneg ht0 ht3, sq_nonneg (r - t ^ 2 / 3), mul_nonneg ht0 (sub_nonneg.mpr r2), mul_nonneg ht0 (sub_nonneg.mpr r1)]
+  have hd2 : 0 < d ^ 2 := by positivity
+  nlinarith [hE, abs_nonneg (4 * t - 4 * (t - t ^ 2 / 3 + r) - 4 / 3 * (t - t ^ 2 / 3 + r) ^ 2)]
+
+/-- row 4 of the table is the exact fourth-order stencil `(−1/12, 4/3, −5/2, 4/3, −1/12)` to within `10⁻¹⁶` per entry -/
+theorem fd_fourth_order_row_close :
+    (AbtemVerif.Gen.FiniteDiff.fdCoefficients.lookup 4).map (fun c =>
+      decide (c.length = 5) && (List.zipWith (fun a b => decide (AbtemVerif.Py.pyAbs (a - b) ≤ 1 / 10 ^ 16)) c [-1 / 12, 4 / 3, -5 / 2, 4 / 3, -1 / 12]).all id)
+      = some true := by
+  decide +kernel
+
+section Parseval
+open AbtemVerif.DFT
+variable {ι : Type*} [Fintype ι]
+
+/-- Parseval step of the vacuum clause: an operator that is diagonal in Fourier space with per-mode gains `g k` whose squared
+moduli lie in `[lo, hi]` changes the total intensity by a factor in `[lo, hi]` — for every transform pair and every wave. With the
+per-mode remainder bound (`vacuum_planewave_intensity_partial`: `| |g k| − 1 | ≤ ε`) this bounds the intensity drift of one
+vacuum step by `(1 ± ε)²`. -/
+theorem vacuum_intensity_bounds [Nonempty ι] (P : FourierPair ι) (g x : ι → ℂ) (lo hi : ℝ) (hlo : 0 ≤ lo) (hhi : 0 ≤ hi)
+    (h : ∀ k, lo ≤ Complex.normSq (g k) ∧ Complex.normSq (g k) ≤ hi) :
+    lo * energy x ≤ energy (P.mult g x) ∧ energy (P.mult g x) ≤ hi * energy x := by
+  refine ⟨?_, P.energy_mult_le g x hi hhi (fun k => (h k).2)⟩
+  unfold FourierPair.mult
+  rw [P.parseval_inv]
+  have hN : (0 : ℝ) < Fintype.card ι := by
+    have : 0 < Fintype.card ι := Fintype.card_pos
+    positivity
+  have h1 : lo * energy (P.F x) ≤ energy (fun k => g k * P.F x k) := by
+    unfold energy
+    rw [Finset.mul_sum]
+    apply Finset.sum_le_sum
+    intro k _
+    rw [Complex.normSq_mul]
+    exact mul_le_mul_of_nonneg_right (h k).1 (Complex.normSq_nonneg _)
+  rw [P.parseval] at h1
+  rw [le_div_iff₀ hN]
+  nlinarith
+end Parseval
 
 /-! ### the exponential series of one slice -/
 
